@@ -209,6 +209,9 @@ pub fn c01_stream_case(rec: &mut Rec, rng: &mut Rng, stream: &[u8], limit: usize
 
 pub fn c01(rec: &mut Rec, rng: &mut Rng, thorough: bool) {
     regress_f1(rec);
+    for _ in 0..(if thorough { 3000 } else { 120 }) {
+        two_connections_case(rec, rng, "C01");
+    }
     let n = if thorough { 6000 } else { 200 };
     let n_sched = if thorough { 12 } else { 8 };
     for i in 0..n {
@@ -1069,6 +1072,101 @@ fn transcript(d: &mut ConnDriver, rec: &mut Rec, chunks: &[Vec<u8>]) -> Vec<Stri
         t.push(format!("w={}", hx(&w)));
     }
     t
+}
+
+/// TWO connections alive in this process at the same time, driven in interleaved steps (op `swap` switches the driver
+/// between two independent models): what each of them delivers, reports and writes is what it does when driven alone —
+/// connections share nothing (no static table, cache or counter may leak from one to the other).
+pub fn two_connections_case(rec: &mut Rec, rng: &mut Rng, prop: &str) {
+    rec.case("two-connections");
+    rec.nontrivial();
+    let limits = [pick_limit(rng), pick_limit(rng)];
+    let mut streams: Vec<Vec<Vec<u8>>> = vec![];
+    for _ in 0..2 {
+        let (bytes, _) = pipeline(rng, 3, false);
+        let mut b = bytes;
+        if rng.chance(1, 3) {
+            // one of them may carry a rejected request in the middle
+            let mut o = ReqOpts::default();
+            o.body_lens = vec![0, 3];
+            let p = gen::valid_request(rng, &o);
+            let w = *rng.pick(&gen::CORRUPTIONS);
+            b.extend_from_slice(&gen::corrupt(rng, &p, w));
+            b.extend_from_slice(&gen::valid_request(rng, &o).bytes());
+        }
+        let cuts = gen::cuts_r(rng, &b);
+        streams.push(gen::split_at_cuts(&b, &cuts));
+    }
+    // slot 0 and slot 1 of the driver
+    let mut d0 = ConnDriver::new(rec, limits[0]);
+    rec.op("swap", "ok");
+    let mut d1 = ConnDriver::new(rec, limits[1]);
+    let mut cur = 1usize;
+    let mut pos = [0usize, 0usize];
+    let mut t: [Vec<String>; 2] = [vec![], vec![]];
+    let mut script: [Vec<(usize, u8)>; 2] = [vec![], vec![]]; // (chunk index, action) per connection, for the solo replay
+    while pos[0] < streams[0].len() || pos[1] < streams[1].len() {
+        let which = if pos[0] >= streams[0].len() { 1 } else if pos[1] >= streams[1].len() { 0 } else { rng.below(2) };
+        if which != cur {
+            rec.op("swap", "ok");
+            d0.log.push("swap".into());
+            d1.log.push("swap".into());
+            cur = which;
+        }
+        let d = if which == 0 { &mut d0 } else { &mut d1 };
+        let act = rng.below(4) as u8;
+        script[which].push((pos[which], act));
+        step_two(rec, d, &streams[which][pos[which]], act, &mut t[which]);
+        pos[which] += 1;
+    }
+    // each of them alone, same steps
+    for which in 0..2 {
+        if which != cur {
+            rec.op("swap", "ok");
+            cur = which;
+        }
+        let mut solo = ConnDriver::new(rec, limits[which]);
+        let mut ts = vec![];
+        for (ci, act) in &script[which] {
+            step_two(rec, &mut solo, &streams[which][*ci], *act, &mut ts);
+        }
+        if ts != t[which] {
+            let mut l = if which == 0 { d0.log.clone() } else { d1.log.clone() };
+            l.push("# the same connection driven alone:".into());
+            l.extend(solo.log.iter().cloned());
+            rec.oracle_fail(prop, &format!("a connection driven next to another one behaves differently from the same connection driven alone: {:?} vs {:?}", t[which], ts), &l);
+        }
+    }
+    if cur != 0 {
+        rec.op("swap", "ok");
+    }
+}
+
+fn step_two(rec: &mut Rec, d: &mut ConnDriver, chunk: &[u8], act: u8, t: &mut Vec<String>) {
+    for r in d.recv(rec, chunk, 0) {
+        t.push(r);
+    }
+    match act {
+        0 => {
+            for x in d.popall(rec) {
+                t.push(x.text);
+            }
+        }
+        1 => {
+            let r = RespSpec { v11: true, code: 200, ops: vec![BOp::Body(b"two".to_vec())] };
+            d.enqueue(rec, &r);
+            let w = drain_writes(d, rec);
+            t.push(format!("w={}", hx(&w)));
+        }
+        2 => {
+            if let Some(x) = d.pop(rec) {
+                t.push(x.text);
+            }
+            let r = d.write(rec, WAct::Accept(7));
+            t.push(format!("{:?}", r));
+        }
+        _ => {}
+    }
 }
 
 /// MANY rejected requests on one connection (nothing may accumulate across them), then a well-formed request fed in
